@@ -42,16 +42,16 @@ Definition to_suffix_trie_string (s : str) : str := rev (trim_suffix ch_dollar s
 (* the abstract trie (layer 2) *)
 Definition has_prefix (keys : list str) (w : str) : bool := existsb (fun k => is_prefix k w) keys.
 
-(* association lists stand for the per-bit-index arrays of the Go struct *)
+(* the per-bit-index arrays of the Go struct are total functions N -> list (default: empty slice),
+   together with the list of indices ever touched (what Build's loops can find non-empty) *)
+Definition app_at {A} (m : N -> list A) (i : N) (xs : list A) : N -> list A :=
+  fun j => if j =? i then m j ++ xs else m j.
+Definition touch (dom : list N) (i : N) : list N := if existsb (N.eqb i) dom then dom else i :: dom.
+
 Fixpoint lookup {A} (m : list (N * A)) (i : N) : option A :=
   match m with
   | [] => None
   | (j, a) :: r => if j =? i then Some a else lookup r i
-  end.
-Fixpoint app_at {A} (m : list (N * list A)) (i : N) (xs : list A) : list (N * list A) :=
-  match m with
-  | [] => [(i, xs)]
-  | (j, a) :: r => if j =? i then (j, a ++ xs) :: r else (j, a) :: app_at r i xs
   end.
 
 Section Matcher.
@@ -65,12 +65,14 @@ Section Matcher.
   Variable t_has : trie_t -> str -> bool.     (* Trie.HasPrefix *)
 
   Record st := {
-    to_trie : list (N * list str);   (* toBuildTrie *)
-    to_ac : list (N * list str);     (* toBuildAc *)
-    regexps : list (N * list str);   (* regexp (compiled) *)
+    to_trie : N -> list str;   (* toBuildTrie *)
+    to_ac : N -> list str;     (* toBuildAc *)
+    regexps : N -> list str;   (* regexp (compiled) *)
+    dom : list N;              (* indices given to AddSet *)
     err : bool
   }.
-  Definition st0 : st := {| to_trie := []; to_ac := []; regexps := []; err := false |}.
+  Definition st0 : st :=
+    {| to_trie := fun _ => []; to_ac := fun _ => []; regexps := fun _ => []; dom := []; err := false |}.
 
   Definition valid_pat (d : str) : bool := forallb (vc_valid chars) d.
 
@@ -90,53 +92,56 @@ Section Matcher.
     if err s then s else
     match k with
     | KFull => {| to_trie := app_at (to_trie s) i (flat_map full_keys pats);
-                  to_ac := to_ac s; regexps := regexps s; err := false |}
+                  to_ac := to_ac s; regexps := regexps s; dom := touch (dom s) i; err := false |}
     | KSuffix => {| to_trie := app_at (to_trie s) i (flat_map suffix_keys pats);
-                    to_ac := to_ac s; regexps := regexps s; err := false |}
+                    to_ac := to_ac s; regexps := regexps s; dom := touch (dom s) i; err := false |}
     | KKeyword => {| to_trie := to_trie s; to_ac := app_at (to_ac s) i pats;
-                     regexps := regexps s; err := false |}
+                     regexps := regexps s; dom := touch (dom s) i; err := false |}
     | KRegex =>
         if forallb rx_ok pats
-        then {| to_trie := to_trie s; to_ac := to_ac s; regexps := app_at (regexps s) i pats; err := false |}
-        else {| to_trie := to_trie s; to_ac := to_ac s; regexps := regexps s; err := true |}
+        then {| to_trie := to_trie s; to_ac := to_ac s; regexps := app_at (regexps s) i pats;
+                dom := touch (dom s) i; err := false |}
+        else {| to_trie := to_trie s; to_ac := to_ac s; regexps := regexps s; dom := dom s; err := true |}
     end.
 
   Definition add_sets (sets : list pset) : st :=
     fold_left (fun s x => add_set s (ps_idx x) (ps_kind x) (ps_pats x)) sets st0.
 
   Record matcher := {
-    m_trie : list (N * trie_t);
-    m_ac : list (N * list str);
-    m_rx : list (N * list str)
+    m_trie : list (N * trie_t);   (* trie[i] for i in validTrieIndexes *)
+    m_ac : N -> list str;         (* ac[i]: the automaton of these patterns; empty = nil *)
+    m_rx : N -> list str
   }.
 
-  Definition nonempty {A} (m : list (N * list A)) : list (N * list A) :=
-    filter (fun x => match snd x with [] => false | _ => true end) m.
-
-  Fixpoint build_tries (m : list (N * list str)) : option (list (N * trie_t)) :=
-    match m with
+  (* Build: an index whose list is empty is skipped *)
+  Fixpoint build_tries (f : N -> list str) (d : list N) : option (list (N * trie_t)) :=
+    match d with
     | [] => Some []
-    | (i, keys) :: r =>
-        match t_new (map to_suffix_trie_string keys), build_tries r with
-        | Some t, Some ts => Some ((i, t) :: ts)
-        | _, _ => None
+    | i :: r =>
+        match f i with
+        | [] => build_tries f r
+        | keys =>
+            match t_new (map to_suffix_trie_string keys), build_tries f r with
+            | Some t, Some ts => Some ((i, t) :: ts)
+            | _, _ => None
+            end
         end
     end.
 
   Definition build (s : st) : option matcher :=
     if err s then None else
-    if negb (forallb (fun x => ac_ok (snd x)) (nonempty (to_ac s))) then None else
-    match build_tries (nonempty (to_trie s)) with
+    if negb (forallb (fun i => match to_ac s i with [] => true | pats => ac_ok pats end) (dom s)) then None else
+    match build_tries (to_trie s) (dom s) with
     | None => None
-    | Some ts => Some {| m_trie := ts; m_ac := nonempty (to_ac s); m_rx := nonempty (regexps s) |}
+    | Some ts => Some {| m_trie := ts; m_ac := to_ac s; m_rx := regexps s |}
     end.
 
   Definition match_bit (m : matcher) (raw : str) (i : N) : bool :=
     let domain := map lower_byte (trim_suffix ch_dot raw) in
     let w := to_suffix_trie_string (ch_hat :: domain) in
     (match lookup (m_trie m) i with Some t => t_has t w | None => false end)
-    || (match lookup (m_ac m) i with Some pats => ac pats (ch_hat :: domain ++ [ch_dollar]) | None => false end)
-    || (match lookup (m_rx m) i with Some rs => existsb (fun r => rx r domain) rs | None => false end).
+    || (match m_ac m i with [] => false | pats => ac pats (ch_hat :: domain ++ [ch_dollar]) end)
+    || existsb (fun r => rx r domain) (m_rx m i).
 
   (* observable: Build error, or for each name the set bits among the probed indices *)
   Definition run (sets : list pset) (names : list str) (idxs : list N) : option (list (list N)) :=
